@@ -2,6 +2,8 @@ import GeoVerif.Model.MathF
 import GeoVerif.Proofs.F64Val
 import GeoVerif.Proofs.TwoSum
 import GeoVerif.Model.Accum
+import GeoVerif.Proofs.Accum
+import GeoVerif.Proofs.MathG
 import Mathlib.Analysis.SpecialFunctions.Trigonometric.Basic
 import Mathlib.Tactic.Ring
 import Mathlib.Tactic.Linarith
@@ -409,6 +411,609 @@ example : (match add ⟨.fin false 1 53, 0⟩ (.fin false 1 0) with
     | ⟨s, t⟩ => F64.same s (.fin false 1 53) && F64.same t (.fin false 1 0)) = true := by decide +kernel
 
 end Accumulator
+
+/-! ## The accumulator as a state machine over the exact binary64 model
+
+`Accum.step` / `Accum.run` (`Model/Accum.lean`) are the functions the driver executes against `Accumulator<double>` after every
+operation of every sampled history. -/
+section AccumulatorHistory
+open GeoVerif.Accum
+
+/-- **`remainder` renormalises** (seeded change C16F).  For every representable state `(_s, _t)` and every representable
+non-zero modulus `y` (no overflow): straight after `remainder(y)`
+* the reported value `operator()()` is the held sum `_s + _t` **rounded to working precision** (and `_t` is the exact rest),
+* the held sum has changed by exactly `n·y`, `n = remquo(_s, y)` the integer nearest to `_s / y` — nothing is lost,
+* the held sum lies in `[−|y|/2, |y|/2]` up to the old low word (the header's range, observation O3 of DESIGN §12.5). -/
+theorem remainder_renormalises (a : Acc) (y : F64) (hs : F64.IsRep a.s) (ht : F64.IsRep a.t) (hy : F64.IsRep y) (hy0 : y.val ≠ 0)
+    (bs : |a.s.val| ≤ (2:ℚ) ^ (1017:ℤ)) (bt : |a.t.val| ≤ (2:ℚ) ^ (1017:ℤ)) :
+    F64.IsRep (Accum.remainder a y).s ∧ F64.IsRep (Accum.remainder a y).t ∧
+    RN ((Accum.remainder a y).s.val + (Accum.remainder a y).t.val) (report (Accum.remainder a y)).val ∧
+    (Accum.remainder a y).s.val + (Accum.remainder a y).t.val = a.s.val + a.t.val - (F64.remquoN a.s y : ℚ) * y.val ∧
+    |(Accum.remainder a y).s.val + (Accum.remainder a y).t.val| ≤ |y.val| / 2 + |a.t.val| := by
+  obtain ⟨sx, mx, ex, hsx⟩ := F64.exists_fin_of_isFinite a.s hs.1
+  obtain ⟨sy, my, ey, hyy⟩ := F64.exists_fin_of_isFinite y hy.1
+  have hmy : my ≠ 0 := by
+    rintro rfl; apply hy0; rw [hyy]; exact F64.val_fin_zero sy ey
+  have hsr : F64.IsRep (F64.fin sx mx ex) := hsx ▸ hs
+  have hyr : F64.IsRep (F64.fin sy my ey) := hyy ▸ hy
+  obtain ⟨hrrep, hrle, hrhalf⟩ := F64.remainder_rep sx sy mx my ex ey hmy hsr hyr
+  obtain ⟨_, hval, _, _⟩ := F64.remainder_spec sx sy mx my ex ey hmy
+  have hdef : Accum.remainder a y = add ⟨F64.remainder (F64.fin sx mx ex) (F64.fin sy my ey), a.t⟩ 0 := by
+    show add ⟨F64.remainder a.s y, a.t⟩ 0 = _; rw [hsx, hyy]
+  have bsr : |(F64.remainder (F64.fin sx mx ex) (F64.fin sy my ey)).val| ≤ (2:ℚ) ^ (1017:ℤ) := by
+    refine le_trans hrle ?_; rw [← hsx]; exact bs
+  obtain ⟨r1, r2, hsum, hrn⟩ := add_zero_renorm ⟨F64.remainder (F64.fin sx mx ex) (F64.fin sy my ey), a.t⟩ hrrep ht bsr bt
+  rw [hdef]
+  simp only [] at hsum hrn
+  refine ⟨r1, r2, ?_, ?_, ?_⟩
+  · show RN _ (Accum.add _ 0).s.val; rw [hsum]; exact hrn
+  · rw [hsum, hval, hsx, hyy]; ring
+  · rw [hsum]
+    have h1 := abs_add_le (F64.remainder (F64.fin sx mx ex) (F64.fin sy my ey)).val a.t.val
+    have : |(F64.remainder (F64.fin sx mx ex) (F64.fin sy my ey)).val| ≤ |y.val| / 2 := by rw [hyy]; linarith
+    linarith
+
+/-- one step of the state machine: representability is preserved and the held value follows the exact semantics of the
+operation up to `addErr` (the rounding of `_t += u`, only for `+=` / `-=`) -/
+theorem accum_step_spec (a : Acc) (op : Op) (v e : ℚ) (hs : F64.IsRep a.s) (ht : F64.IsRep a.t) (hr : InRange a) (hop : OpOk op)
+    (hv : |hval a - v| ≤ e) :
+    F64.IsRep (step a op).s ∧ F64.IsRep (step a op).t ∧
+    |hval (step a op) - (trackStep a (v, e) op).1| ≤ (trackStep a (v, e) op).2 := by
+  have hadd : ∀ y : F64, F64.IsRep y → |y.val| ≤ (2:ℚ) ^ (1016:ℤ) →
+      F64.IsRep (add a y).s ∧ F64.IsRep (add a y).t ∧ |hval (add a y) - (hval a + y.val)| ≤ addErr a y := by
+    intro y hy hyb
+    obtain ⟨_, r1, r2, hex, herr⟩ := accum_add_step a y hs ht hy hr.1 hr.2 hyb
+    refine ⟨r1, r2, ?_⟩
+    unfold addErr
+    simp only []
+    by_cases h0 : (MathF.sum (MathF.sum y a.t).1 a.s).1.val = 0
+    · rw [if_pos h0]
+      have := hex h0
+      unfold hval; rw [this]; simp
+    · rw [if_neg h0]; exact herr
+  cases op with
+  | set y =>
+    refine ⟨hop.1, F64.isRep_zero, ?_⟩
+    show |(y.val + (0 : F64).val) - y.val| ≤ 0
+    rw [F64.val_zero]; simp
+  | add y =>
+    obtain ⟨r1, r2, h⟩ := hadd y hop.1 hop.2
+    refine ⟨r1, r2, ?_⟩
+    show |hval (add a y) - (v + y.val)| ≤ e + addErr a y
+    have : hval (add a y) - (v + y.val) = (hval (add a y) - (hval a + y.val)) + (hval a - v) := by ring
+    rw [this]
+    exact le_trans (abs_add_le _ _) (by linarith)
+  | sub y =>
+    obtain ⟨hn, hnv⟩ := isRep_neg y hop.1
+    obtain ⟨r1, r2, h⟩ := hadd (F64.neg y) hn (by rw [hnv, abs_neg]; exact hop.2)
+    refine ⟨r1, r2, ?_⟩
+    show |hval (add a (F64.neg y)) - (v - y.val)| ≤ e + addErr a (F64.neg y)
+    rw [hnv] at h
+    have : hval (add a (F64.neg y)) - (v - y.val) = (hval (add a (F64.neg y)) - (hval a + -y.val)) + (hval a - v) := by ring
+    rw [this]
+    exact le_trans (abs_add_le _ _) (by linarith)
+  | neg =>
+    obtain ⟨h1, h1v⟩ := isRep_neg a.s hs
+    obtain ⟨h2, h2v⟩ := isRep_neg a.t ht
+    refine ⟨h1, h2, ?_⟩
+    show |((F64.neg a.s).val + (F64.neg a.t).val) - -v| ≤ e
+    rw [h1v, h2v]
+    have : -a.s.val + -a.t.val - -v = -(hval a - v) := by unfold hval; ring
+    rw [this, abs_neg]; exact hv
+  | rem y =>
+    obtain ⟨r1, r2, _, hsum, _⟩ := remainder_renormalises a y hs ht hop.1 hop.2
+      (le_trans hr.1 (Dy.two_zpow_le (by norm_num))) (le_trans hr.2 (Dy.two_zpow_le (by norm_num)))
+    refine ⟨r1, r2, ?_⟩
+    show |hval (Accum.remainder a y) - (v - (F64.remquoN a.s y : ℚ) * y.val)| ≤ e
+    unfold hval at hv ⊢
+    rw [hsum]
+    have : a.s.val + a.t.val - (F64.remquoN a.s y : ℚ) * y.val - (v - (F64.remquoN a.s y : ℚ) * y.val) = a.s.val + a.t.val - v := by ring
+    rw [this]; exact hv
+  | nop => exact ⟨hs, ht, hv⟩
+  | mulInt n => exact absurd hop (by simp [OpOk])
+  | mulF y => exact absurd hop (by simp [OpOk])
+
+/-- **The accumulator holds the sum** (property C16, last sentence) — an invariant over *all* histories of `=`, `+=`, `-=`,
+negation, `remainder` and the `const` members, by induction over the operation list.  If no intermediate state overflows
+(`NoOverflow`), then after the whole history both words are representable and the held value `_s + _t` differs from the
+exact rational value of the same history (`track … .1`) by at most the sum of the single roundings `_t += u` of its `+=` / `-=`
+steps (`track … .2`; each is second order, see `addErr_second_order`).  `=`, negation and `remainder` contribute nothing. -/
+theorem accum_history (ops : List Op) : ∀ (a : Acc) (v e : ℚ), F64.IsRep a.s → F64.IsRep a.t → NoOverflow a ops → |hval a - v| ≤ e →
+    F64.IsRep (run a ops).s ∧ F64.IsRep (run a ops).t ∧ |hval (run a ops) - (track a (v, e) ops).1| ≤ (track a (v, e) ops).2 := by
+  induction ops with
+  | nil => intro a v e hs ht _ hv; exact ⟨hs, ht, hv⟩
+  | cons op ops ih =>
+    intro a v e hs ht hno hv
+    obtain ⟨hr, hop, hrest⟩ := hno
+    obtain ⟨s1, t1, h1⟩ := accum_step_spec a op v e hs ht hr hop hv
+    rw [run_cons]
+    exact ih (step a op) (trackStep a (v, e) op).1 (trackStep a (v, e) op).2 s1 t1 hrest h1
+
+/-- histories of `=`, negation, `remainder` and `const` members only: the held value is **exactly** the value of the history -/
+theorem accum_history_exact (ops : List Op) (a : Acc) (hs : F64.IsRep a.s) (ht : F64.IsRep a.t) (hno : NoOverflow a ops)
+    (h : ∀ op ∈ ops, noAdd op = true) : hval (run a ops) = (track a (hval a, 0) ops).1 := by
+  obtain ⟨_, _, h1⟩ := accum_history ops a (hval a) 0 hs ht hno (by simp)
+  have h2 := track_err_noAdd ops a (hval a) 0 (le_refl _) h
+  have h3 : |hval (run a ops) - (track a (hval a, 0) ops).1| ≤ 0 := le_trans h1 h2
+  have := abs_nonpos_iff.mp h3
+  linarith
+
+/-- **the error of one `Add` is second order**: `addErr ≤ 2^(−104)·(|_s| + |_t| + |y|) + 2^(−1075)` — "roughly twice working
+precision" relative to the magnitudes that entered the step -/
+theorem addErr_second_order (a : Acc) (y : F64) (hs : F64.IsRep a.s) (ht : F64.IsRep a.t) (hy : F64.IsRep y)
+    (bs : |a.s.val| ≤ (2:ℚ) ^ (1016:ℤ)) (bt : |a.t.val| ≤ (2:ℚ) ^ (1016:ℤ)) (by' : |y.val| ≤ (2:ℚ) ^ (1016:ℤ)) :
+    addErr a y ≤ (|a.s.val| + |a.t.val| + |y.val|) * (2:ℚ) ^ (-(104:ℤ)) + (2:ℚ) ^ (-(1075:ℤ)) := by
+  obtain ⟨_, pf1, pf2, pr1, prep2, psum⟩ := F64.twoSum_exact y a.t hy ht (le_1018 by' (by norm_num)) (le_1018 bt (by norm_num))
+  have pb1 : |(MathF.sum y a.t).1.val| ≤ (2:ℚ) ^ (1017:ℤ) :=
+    RN.abs_le_zpow pr1 1017 (by norm_num) (F64.bound_add by' bt (by norm_num) (by norm_num))
+  have hp1 : F64.IsRep (MathF.sum y a.t).1 := ⟨pf1, pr1.rep⟩
+  obtain ⟨_, qf1, qf2, qr1, qrep2, qsum⟩ := F64.twoSum_exact (MathF.sum y a.t).1 a.s hp1 hs (le_1018 pb1 (by norm_num)) (le_1018 bs (by norm_num))
+  set p1 := (MathF.sum y a.t).1.val with hp1d
+  set p2 := (MathF.sum y a.t).2.val with hp2d
+  set q1 := (MathF.sum (MathF.sum y a.t).1 a.s).1.val with hq1d
+  set q2 := (MathF.sum (MathF.sum y a.t).1 a.s).2.val with hq2d
+  have e2 : ((-1074:ℤ) - 1) = -1075 := by norm_num
+  have herr1 := pr1.err
+  have herr2 := qr1.err
+  rw [e2] at herr1 herr2
+  have hw : (0:ℚ) < (2:ℚ) ^ (-(1075:ℤ)) := Dy.two_zpow_pos _
+  have hu : (2:ℚ) ^ (-((53:ℕ):ℤ)) = 1 / 9007199254740992 := by norm_num
+  have hu' : (2:ℚ) ^ (-(53:ℤ)) = 1 / 9007199254740992 := by norm_num
+  have h104 : (2:ℚ) ^ (-(104:ℤ)) = 1 / 20282409603651670423947251286016 := by norm_num
+  rw [hu] at herr1 herr2
+  have hP2 : |p2| ≤ (|y.val| + |a.t.val|) * (1 / 9007199254740992) + (2:ℚ) ^ (-(1075:ℤ)) := by
+    have e : p2 = -(p1 - (y.val + a.t.val)) := by linarith
+    rw [e, abs_neg]
+    refine le_trans herr1 (max_le ?_ (by nlinarith [abs_nonneg y.val, abs_nonneg a.t.val]))
+    have := abs_add_le y.val a.t.val
+    nlinarith [abs_nonneg (y.val + a.t.val)]
+  have hP1 : |p1| ≤ |y.val| + |a.t.val| + |p2| := by
+    have e : p1 = (y.val + a.t.val) + -p2 := by linarith
+    rw [e]
+    have h1 := abs_add_le (y.val + a.t.val) (-p2)
+    have h2 := abs_add_le y.val a.t.val
+    rw [abs_neg] at h1; linarith
+  have hQ2 : |q2| ≤ (|p1| + |a.s.val|) * (1 / 9007199254740992) + (2:ℚ) ^ (-(1075:ℤ)) := by
+    have e : q2 = -(q1 - (p1 + a.s.val)) := by linarith
+    rw [e, abs_neg]
+    refine le_trans herr2 (max_le ?_ (by nlinarith [abs_nonneg p1, abs_nonneg a.s.val]))
+    have := abs_add_le p1 a.s.val
+    nlinarith [abs_nonneg (p1 + a.s.val)]
+  unfold addErr
+  simp only []
+  rw [← hq1d]
+  have hnn : (0:ℚ) ≤ (|a.s.val| + |a.t.val| + |y.val|) * (2:ℚ) ^ (-(104:ℤ)) := by
+    rw [h104]; nlinarith [abs_nonneg a.s.val, abs_nonneg a.t.val, abs_nonneg y.val]
+  by_cases h0 : q1 = 0
+  · rw [if_pos h0]; linarith
+  · rw [if_neg h0, hu', h104]
+    refine max_le ?_ (by rw [h104] at hnn; linarith)
+    have h3 := abs_add_le q2 p2
+    rw [← hq2d, ← hp2d]
+    generalize (2:ℚ) ^ (-(1075:ℤ)) = w at *
+    nlinarith [abs_nonneg q2, abs_nonneg p2, abs_nonneg p1, abs_nonneg a.s.val, abs_nonneg a.t.val, abs_nonneg y.val]
+
+/-- non-vacuity: the history `= 1; += 3·2^-54; -= 1; negate; remainder(360); operator()()` from the default-constructed accumulator
+satisfies every hypothesis of `accum_history` (decided on the exact model), and it is the cancellation of observation O2 -/
+example : NoOverflow (set 0) [.set (.fin false 1 0), .add (.fin false 3 (-54)), .sub (.fin false 1 0), .neg, .rem (.fin false 360 0), .nop] :=
+  noOverflow_of_B _ _ (by decide +kernel)
+example : F64.IsRep (set 0).s ∧ F64.IsRep (set 0).t := ⟨F64.isRep_zero, F64.isRep_zero⟩
+/-- non-vacuity of `remainder_renormalises`: state (360·2^53, 100), modulus 360 (the witness of seeded change C16F): the model
+reports 100 -/
+example : F64.same (report (Accum.remainder ⟨.fin false 360 53, .fin false 100 0⟩ (.fin false 360 0))) (.fin false 100 0) = true := by
+  decide +kernel
+example : repB (.fin false 360 53) = true ∧ repB (.fin false 100 0) = true ∧ repB (.fin false 360 0) = true := by decide +kernel
+
+/-- **`Accumulator::fastsum` is error free when `|u| ≥ |v|`** (Dekker's Fast2Sum for the binary64 model; the routine is private and
+currently unused by the library, its documented precondition is exactly the hypothesis): `s = RN(u + v)` and `s + t = u + v`. -/
+theorem fastsum_exact (u v : F64) (hu : F64.IsRep u) (hv : F64.IsRep v) (huv : |v.val| ≤ |u.val|)
+    (hub : |u.val| ≤ (2:ℚ) ^ (1018:ℤ)) :
+    (fastsum u v).1.isFinite = true ∧ (fastsum u v).2.isFinite = true ∧
+    RN (u.val + v.val) (fastsum u v).1.val ∧ (fastsum u v).1.val + (fastsum u v).2.val = u.val + v.val := by
+  have hvb : |v.val| ≤ (2:ℚ) ^ (1018:ℤ) := le_trans huv hub
+  obtain ⟨f1, r1, b1⟩ := F64.add_rn u v hu.1 hv.1 1019 (by norm_num) (by norm_num)
+    (F64.bound_add hub hvb (by norm_num) (by norm_num))
+  obtain ⟨f2, r2, b2⟩ := F64.sub_rn (u + v) u f1 hu.1 1020 (by norm_num) (by norm_num)
+    (F64.bound_sub b1 hub (by norm_num) (by norm_num))
+  -- vp = s ⊖ u is exact (Fast2Sum step)
+  have hvp : Rep ((u + v).val - u.val) := fts_rep hu.2 hv.2 huv r1
+  have e2 : (u + v - u).val = (u + v).val - u.val := hvp.rn_eq r2
+  obtain ⟨f3, r3, _⟩ := F64.sub_rn v (u + v - u) hv.1 f2 1021 (by norm_num) (by norm_num)
+    (F64.bound_sub hvb b2 (by norm_num) (by norm_num))
+  -- t = v ⊖ vp = (u + v) − s, the representable rounding error
+  have herr : Rep (u.val + v.val - (u + v).val) := err_rep hu.2 hv.2 r1
+  have e3 : (v - (u + v - u)).val = u.val + v.val - (u + v).val := by
+    have : v.val - (u + v - u).val = u.val + v.val - (u + v).val := by rw [e2]; ring
+    rw [this] at r3; exact herr.rn_eq r3
+  refine ⟨f1, f3, r1, ?_⟩
+  show (u + v).val + (v - (u + v - u)).val = _
+  rw [e3]; ring
+
+/-- non-vacuity: u = 2^53, v = 1 (the sum is inexact, the error word is 1) -/
+example : (2:ℚ) ^ (53:ℤ) ≥ 1 ∧ F64.same (fastsum (.fin false 1 53) (.fin false 1 0)).1 (.fin false 1 53) = true ∧
+    F64.same (fastsum (.fin false 1 53) (.fin false 1 0)).2 (.fin false 1 0) = true := by
+  refine ⟨by norm_num, by decide +kernel, by decide +kernel⟩
+
+end AccumulatorHistory
+
+/-! ## `sincosd` / `sincosde` / `sind` / `cosd` / `tand` / `atand`: laws of the full models (`Model/MathG.lean`)
+
+The models are the code line by line around abstract libm kernels `k : Kern`; the driver executes them (with the harness's
+independent wide-precision kernel values) against `Math::sincosd`, `sincosde`, `sind`, `cosd`, `tand`, `atand` on every sample. -/
+section Trig
+
+/-- **the special values are correctly rounded**: `sqrt(1/2)`, `sqrt(3)/2` of the model are within half an ulp (`2^−54`) of
+√½ and √3/2, and `1/2` is exact -/
+theorem special_values_correctly_rounded :
+    (sqrtHalf.val - (2:ℚ) ^ (-54:ℤ)) ^ 2 < 1 / 2 ∧ 1 / 2 < (sqrtHalf.val + (2:ℚ) ^ (-54:ℤ)) ^ 2 ∧
+    (sqrt3Half.val - (2:ℚ) ^ (-54:ℤ)) ^ 2 < 3 / 4 ∧ 3 / 4 < (sqrt3Half.val + (2:ℚ) ^ (-54:ℤ)) ^ 2 ∧
+    half.val = 1 / 2 ∧ 0 < sqrtHalf.val ∧ 0 < sqrt3Half.val := by
+  rw [sqrtHalf_val, sqrt3Half_val, half_val]
+  norm_num
+
+/-- **the special-value branches are taken exactly at ±45° and ±30°** (every representable reduced angle), and there the
+model returns `(copysign(√½, r), √½)` resp. `(copysign(1/2, r), √3/2)` — the sign of the sine is the sign of the reduced
+angle (seeded change C16E drops it at −30°); everywhere else the kernel values are used -/
+theorem sincosCore_special (k : Kern) (s : Bool) (m : ℕ) (e : ℤ) (h : F64.IsRep (F64.fin s m e))
+    (hb : |(F64.fin s m e).val| ≤ (2:ℚ) ^ (1000:ℤ)) :
+    (sincosBranch (F64.fin s m e) = Branch.s45 ↔ |(F64.fin s m e).val| = 45) ∧
+    (sincosBranch (F64.fin s m e) = Branch.s30 ↔ |(F64.fin s m e).val| = 30) ∧
+    (|(F64.fin s m e).val| = 45 → sincosCore k (F64.fin s m e) = (copysign sqrtHalf (F64.fin s m e * degreeD), sqrtHalf)) ∧
+    (|(F64.fin s m e).val| = 30 → sincosCore k (F64.fin s m e) = (copysign half (F64.fin s m e * degreeD), sqrt3Half)) ∧
+    (|(F64.fin s m e).val| ≠ 45 → |(F64.fin s m e).val| ≠ 30 →
+      sincosCore k (F64.fin s m e) = (k.sin (F64.fin s m e * degreeD), k.cos (F64.fin s m e * degreeD))) := by
+  have h2 := eq_two_abs_iff s m e h hb
+  have h3 := eq_three_abs_iff s m e h hb
+  by_cases c2 : F64.eq ((2 : F64) * F64.abs (F64.fin s m e)) qd = true
+  · have v45 := h2.mp c2
+    have n30 : |(F64.fin s m e).val| ≠ 30 := by rw [v45]; norm_num
+    refine ⟨?_, ?_, ?_, ?_, ?_⟩
+    · unfold sincosBranch; simp [c2, v45]
+    · unfold sincosBranch; simp [c2, n30]
+    · intro _; unfold sincosCore; simp [c2]
+    · intro h30; exact absurd h30 n30
+    · intro h45; exact absurd v45 h45
+  · have c2' : F64.eq ((2 : F64) * F64.abs (F64.fin s m e)) qd = false := by simpa using c2
+    have n45 : |(F64.fin s m e).val| ≠ 45 := fun hv => c2 (h2.mpr hv)
+    by_cases c3 : F64.eq ((3 : F64) * F64.abs (F64.fin s m e)) qd = true
+    · have v30 := h3.mp c3
+      refine ⟨?_, ?_, ?_, ?_, ?_⟩
+      · unfold sincosBranch; simp [c2', c3, n45]
+      · unfold sincosBranch; simp [c2', c3, v30]
+      · intro h45; exact absurd h45 n45
+      · intro _; unfold sincosCore; simp [c2', c3]
+      · intro _ h30; exact absurd v30 h30
+    · have c3' : F64.eq ((3 : F64) * F64.abs (F64.fin s m e)) qd = false := by simpa using c3
+      have n30 : |(F64.fin s m e).val| ≠ 30 := fun hv => c3 (h3.mpr hv)
+      refine ⟨?_, ?_, ?_, ?_, ?_⟩
+      · unfold sincosBranch; simp [c2', c3', n45]
+      · unfold sincosBranch; simp [c2', c3', n30]
+      · intro h45; exact absurd h45 n45
+      · intro h30; exact absurd h30 n30
+      · intro _ _; unfold sincosCore; simp [c2', c3']
+
+/-- non-vacuity: −30 is representable and in range -/
+example : F64.IsRep (F64.fin true 30 0) ∧ |(F64.fin true 30 0).val| ≤ (2:ℚ) ^ (1000:ℤ) ∧ |(F64.fin true 30 0).val| = 30 := by
+  have hv : (F64.fin true 30 0).val = -30 := by rw [F64.val_fin]; norm_num
+  refine ⟨GeoVerif.Accum.isRep_of_repB _ (by decide +kernel), ?_, ?_⟩
+  · rw [hv]; norm_num
+    calc (30:ℚ) ≤ (2:ℚ) ^ (5:ℤ) := by norm_num
+      _ ≤ (2:ℚ) ^ (1000:ℤ) := Dy.two_zpow_le (by norm_num)
+  · rw [hv]; norm_num
+
+/-- **the reduction depends only on `x` modulo 360**: if `x' = x + 360·n` (as real numbers) then `remquo` returns the same reduced
+angle and a quotient that differs by `4n`, so the quadrant switch (`quadSwitch_add4`) sees the same quadrant — ties at odd
+multiples of 45° included (`remquo` rounds them to the even quotient, which a shift by `4n` preserves) -/
+theorem sincosd_reduction_periodic (sx sx' : Bool) (mx mx' : ℕ) (ex ex' : ℤ) (n : ℤ)
+    (h : (F64.fin sx' mx' ex').val = (F64.fin sx mx ex).val + 360 * n) :
+    F64.remquoN (F64.fin sx' mx' ex') qd = F64.remquoN (F64.fin sx mx ex) qd + 4 * n ∧
+    (F64.remainder (F64.fin sx' mx' ex') qd).val = (F64.remainder (F64.fin sx mx ex) qd).val ∧
+    ∀ (α : Type) [Neg α] (s c : α), quadSwitch (F64.remquoN (F64.fin sx' mx' ex') qd) s c = quadSwitch (F64.remquoN (F64.fin sx mx ex) qd) s c := by
+  have h90 : (F64.fin false 90 0).val = 90 := by rw [F64.val_fin]; simp
+  obtain ⟨hq, hr⟩ := remquo_add_even sx sx' false mx mx' 90 ex ex' 0 (by norm_num) (2 * n) (by
+    rw [h, h90]; push_cast; ring)
+  have hq' : F64.remquoN (F64.fin sx' mx' ex') qd = F64.remquoN (F64.fin sx mx ex) qd + 4 * n := by
+    rw [qd_eq, hq]; ring
+  refine ⟨hq', by rw [qd_eq]; exact hr, fun α _ s c => ?_⟩
+  rw [hq']; exact quadSwitch_add4 _ _ s c
+
+/-- **the reduction is odd**: `remquo(−x, 90)` returns the negated reduced angle and the negated quotient, and the quadrant switch
+turns `(−s, c)` with the negated quotient into `(−sin, cos)` — sine odd, cosine even, in every quadrant -/
+theorem sincosd_reduction_odd (sx : Bool) (mx : ℕ) (ex : ℤ) :
+    F64.remquoN (F64.neg (F64.fin sx mx ex)) qd = -F64.remquoN (F64.fin sx mx ex) qd ∧
+    (F64.remainder (F64.neg (F64.fin sx mx ex)) qd).val = -(F64.remainder (F64.fin sx mx ex) qd).val ∧
+    ∀ (s c : F64), quadSwitch (F64.remquoN (F64.neg (F64.fin sx mx ex)) qd) (-s) c
+      = (-(quadSwitch (F64.remquoN (F64.fin sx mx ex) qd) s c).1, (quadSwitch (F64.remquoN (F64.fin sx mx ex) qd) s c).2) := by
+  obtain ⟨hq, hr⟩ := remquo_neg sx false mx 90 ex 0 (by norm_num)
+  have hq' : F64.remquoN (F64.neg (F64.fin sx mx ex)) qd = -F64.remquoN (F64.fin sx mx ex) qd := by rw [qd_eq]; exact hq
+  refine ⟨hq', by rw [qd_eq]; exact hr, fun s c => ?_⟩
+  rw [hq']
+  exact quadSwitch_neg (fun a => by cases a <;> simp [Neg.neg, F64.neg]) _ s c
+
+/--
+**`sincosde(x, 0)` takes the same path as `sincosd(x)` (partial).**  Full statement: for every finite `x` whose reduced
+angle `d₀ = remquo(x, 90)` has `|d₀| ≥ 1/16`, `sincosdeM k x 0 = sincosdM k x`.  Proved here: the reduced angle of `sincosde`
+(`AngRound(d₀ + 0)`) is *structurally* `d₀ + 0`, a finite number with the same value and sign as `d₀`, it takes the same
+special-value branch, the quotient is the same term, and the zero-sign source `x + 0` has the value and sign of `x`.  Not proved:
+that the results are the same *terms* — `d₀ + 0` and `d₀` may be different unnormalised representations `m·2^e` of the same
+number, so this needs kernels that respect value equality (true of libm) and a congruence lemma through `sincosCore`.
+-/
+theorem sincosde_zero_correction_partial (sx : Bool) (mx : ℕ) (ex : ℤ) (hx : F64.IsRep (F64.fin sx mx ex))
+    (hxb : |(F64.fin sx mx ex).val| ≤ (2:ℚ) ^ (1000:ℤ))
+    (hd : 1 / 16 ≤ |(F64.remainder (F64.fin sx mx ex) qd).val|) :
+    sincosdeArg (F64.fin sx mx ex) 0 = F64.remainder (F64.fin sx mx ex) qd + 0 ∧
+    (sincosdeArg (F64.fin sx mx ex) 0).val = (F64.remainder (F64.fin sx mx ex) qd).val ∧
+    (sincosdeArg (F64.fin sx mx ex) 0).signbit = (F64.remainder (F64.fin sx mx ex) qd).signbit ∧
+    sincosBranch (sincosdeArg (F64.fin sx mx ex) 0) = sincosBranch (F64.remainder (F64.fin sx mx ex) qd) ∧
+    (F64.fin sx mx ex + 0).val = (F64.fin sx mx ex).val ∧ (F64.fin sx mx ex + 0).signbit = (F64.fin sx mx ex).signbit := by
+  have h90 : F64.IsRep (F64.fin false 90 0) := GeoVerif.Accum.isRep_of_repB _ (by decide +kernel)
+  obtain ⟨hrrep, hrle, hrhalf⟩ := F64.remainder_rep sx false mx 90 ex 0 (by norm_num) hx h90
+  set d0 := F64.remainder (F64.fin sx mx ex) (F64.fin false 90 0) with hd0
+  have hd' : 1 / 16 ≤ |d0.val| := hd
+  have hd0b : |d0.val| ≤ (2:ℚ) ^ (1000:ℤ) := le_trans hrle hxb
+  have hd0nz : d0.val ≠ 0 := by
+    intro h0; rw [h0, abs_zero] at hd'; norm_num at hd'
+  obtain ⟨zrep, zval, zsign⟩ := add_zero_same d0 hrrep hd0b
+  obtain ⟨s1, m1, e1, h1⟩ := F64.exists_fin_of_isFinite (d0 + 0) zrep.1
+  have hbig : 1 / 16 ≤ |(F64.fin s1 m1 e1).val| := by rw [← h1, zval]; exact hd'
+  have harg : sincosdeArg (F64.fin sx mx ex) 0 = d0 + 0 := by
+    show angRound (d0 + 0) = d0 + 0
+    rw [h1]; exact angRound_big s1 m1 e1 hbig
+  have hxnz : (F64.fin sx mx ex).val ≠ 0 := by
+    intro h0
+    have : |d0.val| ≤ 0 := by rw [h0, abs_zero] at hrle; exact hrle
+    have := abs_nonneg d0.val
+    have : |d0.val| = 0 := le_antisymm ‹|d0.val| ≤ 0› this
+    rw [this] at hd'; norm_num at hd'
+  obtain ⟨_, xval, xsign⟩ := add_zero_same (F64.fin sx mx ex) hx hxb
+  refine ⟨harg, by rw [harg]; exact zval, by rw [harg]; exact zsign hd0nz, ?_, xval, xsign hxnz⟩
+  -- same branch: the branch depends on |value| only
+  rw [harg, h1]
+  obtain ⟨s0, m0, e0, h0⟩ := F64.exists_fin_of_isFinite d0 hrrep.1
+  show sincosBranch (F64.fin s1 m1 e1) = sincosBranch d0
+  rw [h0]
+  have hz1 : F64.IsRep (F64.fin s1 m1 e1) := h1 ▸ zrep
+  have hz0 : F64.IsRep (F64.fin s0 m0 e0) := h0 ▸ hrrep
+  have hv : (F64.fin s1 m1 e1).val = (F64.fin s0 m0 e0).val := by rw [← h1, ← h0]; exact zval
+  have b1 : |(F64.fin s1 m1 e1).val| ≤ (2:ℚ) ^ (1000:ℤ) := by rw [hv, ← h0]; exact hd0b
+  have b0 : |(F64.fin s0 m0 e0).val| ≤ (2:ℚ) ^ (1000:ℤ) := by rw [← h0]; exact hd0b
+  have i2a := eq_two_abs_iff s1 m1 e1 hz1 b1
+  have i2b := eq_two_abs_iff s0 m0 e0 hz0 b0
+  have i3a := eq_three_abs_iff s1 m1 e1 hz1 b1
+  have i3b := eq_three_abs_iff s0 m0 e0 hz0 b0
+  rw [hv] at i2a i3a
+  have e2 : F64.eq ((2 : F64) * F64.abs (F64.fin s1 m1 e1)) qd = F64.eq ((2 : F64) * F64.abs (F64.fin s0 m0 e0)) qd := by
+    rw [Bool.eq_iff_iff]; exact i2a.trans i2b.symm
+  have e3 : F64.eq ((3 : F64) * F64.abs (F64.fin s1 m1 e1)) qd = F64.eq ((3 : F64) * F64.abs (F64.fin s0 m0 e0)) qd := by
+    rw [Bool.eq_iff_iff]; exact i3a.trans i3b.symm
+  unfold sincosBranch
+  rw [e2, e3]
+
+/-- non-vacuity: x = 100 (reduced angle 10°) -/
+example : F64.IsRep (F64.fin false 100 0) ∧ (1:ℚ) / 16 ≤ |(F64.remainder (F64.fin false 100 0) qd).val| := by
+  refine ⟨GeoVerif.Accum.isRep_of_repB _ (by decide +kernel), ?_⟩
+  have h : (F64.remainder (F64.fin false 100 0) qd).toDy.m = 10 ∧ (F64.remainder (F64.fin false 100 0) qd).toDy.e = 0 := by decide +kernel
+  unfold F64.val Dy.val; rw [h.1, h.2]; norm_num
+
+/-- **signed zeros** (the last two lines of `sincosd` / `sincosde`): a zero sine takes the sign of `z` (`x`, resp. `x + t`); a
+representable cosine that is zero comes out as `+0` -/
+theorem sincosFinish_signed_zeros (q : ℤ) (z s c : F64) :
+    (F64.eq (quadSwitch q s c).1 0 = true → (sincosFinish q z (s, c)).1 = copysign (quadSwitch q s c).1 z) ∧
+    (F64.eq (quadSwitch q s c).1 0 = false → (sincosFinish q z (s, c)).1 = (quadSwitch q s c).1) ∧
+    (sincosFinish q z (s, c)).2 = (quadSwitch q s c).2 + 0 ∧
+    (F64.IsRep (quadSwitch q s c).2 → (quadSwitch q s c).2.val = 0 → (sincosFinish q z (s, c)).2 = F64.fin false 0 0) := by
+  unfold sincosFinish
+  refine ⟨fun h => by simp [h], fun h => by simp [h], rfl, fun hr h0 => ?_⟩
+  show (quadSwitch q s c).2 + 0 = _
+  obtain ⟨s1, m1, e1, h1⟩ := F64.exists_fin_of_isFinite _ hr.1
+  rw [h1] at h0 ⊢
+  have hm : m1 = 0 := by
+    rw [F64.val_fin] at h0
+    have hp := Dy.two_zpow_pos e1
+    rcases mul_eq_zero.mp h0 with h | h
+    · cases s1 <;> simp at h <;> exact_mod_cast h
+    · exact absurd h hp.ne'
+  subst hm
+  show F64.rnd (Dy.add (F64.fin s1 0 e1).toDy (0 : F64).toDy) (s1 && false) = _
+  have hd : (Dy.add (F64.fin s1 0 e1).toDy (0 : F64).toDy).m = 0 := by
+    have h00 : (0 : F64).toDy = ⟨0, 0⟩ := rfl
+    have h01 : (F64.fin s1 0 e1).toDy = ⟨0, e1⟩ := by cases s1 <;> simp [F64.toDy]
+    rw [h00, h01]
+    unfold Dy.add
+    by_cases hle : e1 ≤ 0 <;> simp [hle, Dy.shl]
+  unfold F64.rnd
+  have hr0 : Dy.round53 (Dy.add (F64.fin s1 0 e1).toDy (0 : F64).toDy) = ⟨0, 0⟩ := Dy.roundTo_zero 53 (-1074) _ hd
+  simp [hr0, hd]
+
+/-- **`atan2d` is exact on the axes** (model, every finite argument): with a kernel that returns the signed zero for
+`atan2(±0, x' ≥ 0)` (C11 F.10.1.4), `atan2d(±0, x) = ±0` for `x ≥ +0`, `±180` for `x ≤ −0`; `atan2d(y, ±0) = ±90` for `y ≠ 0` -/
+theorem atan2d_axes (k : Kern) (sy sx : Bool) (ey ex : ℤ) (mx my : ℕ) :
+    (k.atan2 (F64.fin sy 0 ey) (F64.fin false mx ex) = F64.fin sy 0 0 →
+      atan2dM k (F64.fin sy 0 ey) (F64.fin sx mx ex) = if sx then F64.fin sy 180 0 else F64.fin sy 0 0) ∧
+    (my ≠ 0 → k.atan2 (F64.fin sx 0 ex) (F64.fin false my ey) = F64.fin sx 0 0 →
+      atan2dM k (F64.fin sy my ey) (F64.fin sx 0 ex) = F64.fin sy 90 0) :=
+  ⟨atan2dM_axis_y0 k sy sx ey mx ex, fun hmy hk => atan2dM_axis_x0 k sy sx ex my ey hmy hk⟩
+
+/-- **`atand(±1) = ±45` exactly** when the kernel returns the correctly rounded `π/4` for `atan2(±1, 1)`: the division by the rounded
+constant `degree` gives exactly 45 -/
+theorem atand_one (k : Kern) (s : Bool) (hk : k.atan2 (F64.fin s 1 0) 1 = F64.copysign (piD / 4) (F64.fin s 1 0)) :
+    (atandM k (F64.fin s 1 0)).val = if s then -45 else 45 := by
+  rw [atandM_one k s hk]; exact val_45 s
+
+/-- **`tand` at odd multiples of 45° is exactly ±1**: whenever the reduced angle takes the `2|d| = 90` branch, for every kernel,
+every quadrant and every sign -/
+theorem tand_special45 (k : Kern) (x : F64) (h : sincosBranch (F64.remainder x qd) = Branch.s45) :
+    (tandM k x).val = 1 ∨ (tandM k x).val = -1 := by
+  rcases tandM_s45 k x h with h1 | h1
+  · left; rw [h1]; exact one52_val
+  · right; rw [h1]
+    show (F64.fin true 4503599627370496 (-52)).val = -1
+    rw [F64.val_fin]; norm_num
+
+/-- non-vacuity: 135° takes the 45° branch -/
+example : sincosBranch (F64.remainder (F64.fin false 135 0) qd) = Branch.s45 := by decide +kernel
+
+/-! ### `AngRound` below 1/16 -/
+
+/-- **AngRound below 1/16** (every representable `|x| < 1/16`): the result is finite, keeps the sign bit of `x` (also for `±0`),
+its magnitude `a` is a multiple of the documented gap `1/16 − nextafter(1/16, 0) = 2^−57`, lies in `[0, 1/16]`, and is within half a gap
+(`2^−58`) of `|x|` — i.e. `AngRound` rounds `|x|` to the nearest multiple of `2^−57`.  Together with `angRound_big` this is the whole
+function. -/
+theorem angRound_small (s : Bool) (m : ℕ) (e : ℤ) (hx : F64.IsRep (F64.fin s m e)) (h : |(F64.fin s m e).val| < 1 / 16) :
+    ∃ a : ℚ, 0 ≤ a ∧ a ≤ 1 / 16 ∧ OnGrid (-57) a ∧ |a - (|(F64.fin s m e).val|)| ≤ (2:ℚ) ^ (-58:ℤ) ∧
+      (angRound (F64.fin s m e)).isFinite = true ∧ (angRound (F64.fin s m e)).signbit = s ∧
+      (angRound (F64.fin s m e)).val = if s then -a else a := by
+  set y := |(F64.fin s m e).val| with hy
+  have hy0 : 0 ≤ y := abs_nonneg _
+  have hyrep : Rep y := by
+    have := (abs_fin_isRep s m e hx).2; rw [F64.val_abs_fin] at this; exact this
+  have habsv : (F64.abs (F64.fin s m e)).val = y := F64.val_abs_fin s m e
+  have habsf : (F64.abs (F64.fin s m e)).isFinite = true := rfl
+  have hzf : (F64.fin false 1 (-4)).isFinite = true := rfl
+  -- w = z ⊖ y
+  obtain ⟨wf, wr, _⟩ := F64.sub_rn (F64.fin false 1 (-4)) (F64.abs (F64.fin s m e)) hzf habsf 0 (by norm_num) (by norm_num) (by
+    rw [sixteenth_val, habsv]; rw [abs_le]; constructor <;> norm_num <;> linarith)
+  rw [sixteenth_val, habsv] at wr
+  set w := (F64.fin false 1 (-4)) - F64.abs (F64.fin s m e) with hw
+  set v := (1:ℚ) / 16 - y with hv
+  have hvpos : 0 < v := by linarith
+  have hvle : v ≤ 1 / 16 := by linarith
+  -- w is on the grid 2^-57, within 2^-58 of v, and 0 < w ≤ 1/16
+  have hwle : w.val ≤ 1 / 16 := wr.le_of_le_rep rep_sixteenth hvle
+  have key : OnGrid (-57) w.val ∧ |w.val - v| ≤ (2:ℚ) ^ (-58:ℤ) ∧ 0 < w.val := by
+    by_cases hbig : (1:ℚ) / 32 ≤ y
+    · -- y ≥ 1/32: y is on the grid, the subtraction is exact
+      have hyg : OnGrid (-57) y := by
+        have := hyrep.onGrid_of_ge (-4) (by rw [abs_of_nonneg hy0]; norm_num; linarith)
+        simpa using this
+      have hvg : OnGrid (-57) v := grid57_sixteenth.sub hyg
+      have hvrep : Rep v := Rep.of_grid hvg (by norm_num) (by
+        rw [abs_of_pos hvpos]; norm_num; linarith)
+      have := hvrep.rn_eq wr
+      rw [this]
+      exact ⟨hvg, by simp, hvpos⟩
+    · have hlt : y < 1 / 32 := not_le.mp hbig
+      have hvne : v ≠ 0 := hvpos.ne'
+      obtain ⟨hg, hc⟩ := wr.spec hvne
+      by_cases hv16 : v = 1 / 16
+      · have := rep_sixteenth.rn_eq (hv16 ▸ wr)
+        rw [this, hv16]
+        exact ⟨grid57_sixteenth, by simp, by norm_num⟩
+      · have hvlt : v < 1 / 16 := lt_of_le_of_ne hvle hv16
+        have hbin : bin v = -4 := by
+          apply bin_unique
+          · rw [abs_of_pos hvpos]; norm_num; linarith
+          · rw [abs_of_pos hvpos]; norm_num; linarith
+        have htq : tq v = -57 := by unfold tq; rw [hbin]; norm_num
+        rw [htq] at hg hc
+        have h58 : (2:ℚ) ^ (-57:ℤ) = 2 * (2:ℚ) ^ (-58:ℤ) := by
+          rw [show (-57:ℤ) = 1 + -58 by norm_num, Dy.two_zpow_split]; norm_num
+        refine ⟨hg, by rw [h58] at hc; linarith, ?_⟩
+        -- w ≥ 1/32 > 0
+        have : (1:ℚ) / 32 ≤ w.val := wr.ge_of_ge_rep ⟨1, -5, by norm_num, by norm_num, by norm_num⟩ (by linarith)
+        linarith
+  obtain ⟨hwg, hwerr, hwpos⟩ := key
+  have hgt : F64.gt w 0 = true := (lt_zero_iff w wf).mpr hwpos
+  -- y' = z ⊖ w, exact
+  obtain ⟨yf, yr, _⟩ := F64.sub_rn (F64.fin false 1 (-4)) w hzf wf 0 (by norm_num) (by norm_num) (by
+    rw [sixteenth_val]; rw [abs_le]; constructor <;> norm_num <;> linarith)
+  rw [sixteenth_val] at yr
+  have hag : OnGrid (-57) ((1:ℚ) / 16 - w.val) := grid57_sixteenth.sub hwg
+  have harep : Rep ((1:ℚ) / 16 - w.val) := Rep.of_grid hag (by norm_num) (by
+    rw [abs_of_nonneg (by linarith)]; norm_num; linarith)
+  have hyv : ((F64.fin false 1 (-4)) - w).val = 1 / 16 - w.val := harep.rn_eq yr
+  -- assemble
+  have hres : angRound (F64.fin s m e) = copysign ((F64.fin false 1 (-4)) - w) (F64.fin s m e) := by
+    unfold angRound
+    simp only []
+    rw [← hw, hgt]; simp
+  obtain ⟨s', m', e', hfin'⟩ := F64.exists_fin_of_isFinite _ yf
+  refine ⟨1 / 16 - w.val, by linarith, by linarith, hag, ?_, ?_, ?_, ?_⟩
+  · have : (1:ℚ) / 16 - w.val - y = -(w.val - v) := by rw [hv]; ring
+    rw [this, abs_neg]; exact hwerr
+  · rw [hres, hfin']; rfl
+  · rw [hres, hfin']; rfl
+  · rw [hres, hfin']
+    show (F64.fin s m' e').val = _
+    have hnn : 0 ≤ (F64.fin s' m' e').val := by rw [← hfin', hyv]; linarith
+    have habs' : (F64.fin false m' e').val = |(F64.fin s' m' e').val| := F64.val_abs_fin s' m' e'
+    rw [abs_of_nonneg hnn, ← hfin', hyv] at habs'
+    cases s
+    · simp only [Bool.false_eq_true, if_false]; exact habs'
+    · simp only [if_true]
+      have : (F64.fin true m' e').val = -(F64.fin false m' e').val := by
+        rw [F64.val_fin, F64.val_fin]; simp
+      rw [this, habs']
+
+/-- non-vacuity: 2^-10 and −0 are representable and below 1/16 -/
+example : F64.IsRep (F64.fin false 1 (-10)) ∧ |(F64.fin false 1 (-10)).val| < 1 / 16 := by
+  refine ⟨GeoVerif.Accum.isRep_of_repB _ (by decide +kernel), ?_⟩
+  rw [F64.val_fin]; norm_num
+
+/-- **AngRound is odd**, bit for bit, for every argument (NaN and infinities included) -/
+theorem angRound_odd (z : F64) : angRound (F64.neg z) = F64.neg (angRound z) := by
+  cases z with
+  | nan => rfl
+  | inf s => cases s <;> rfl
+  | fin s m e =>
+    unfold angRound
+    simp only []
+    have ha : F64.abs (F64.neg (F64.fin s m e)) = F64.abs (F64.fin s m e) := rfl
+    rw [ha]
+    generalize (if F64.gt ((F64.fin false 1 (-4)) - F64.abs (F64.fin s m e)) 0 = true
+      then (F64.fin false 1 (-4)) - ((F64.fin false 1 (-4)) - F64.abs (F64.fin s m e)) else F64.abs (F64.fin s m e)) = y
+    cases y <;> rfl
+
+/-- **AngNormalize is odd** (value and sign bit), for every finite argument: `AngNormalize(−x) = −AngNormalize(x)`, including the
+sign rules at `0` and `±180` -/
+theorem angNormalize_odd (sx : Bool) (mx : ℕ) (ex : ℤ) :
+    (angNormalize (F64.neg (F64.fin sx mx ex))).val = -(angNormalize (F64.fin sx mx ex)).val ∧
+    (angNormalize (F64.neg (F64.fin sx mx ex))).signbit = !(angNormalize (F64.fin sx mx ex)).signbit := by
+  obtain ⟨_, hrv⟩ := remquo_neg sx false mx 360 ex 0 (by norm_num)
+  obtain ⟨f1, _, _, z1⟩ := F64.remainder_spec (!sx) false mx 360 ex 0 (by norm_num)
+  obtain ⟨f2, _, _, z2⟩ := F64.remainder_spec sx false mx 360 ex 0 (by norm_num)
+  set y' := F64.remainder (F64.fin (!sx) mx ex) (F64.fin false 360 0) with hy'
+  set y := F64.remainder (F64.fin sx mx ex) (F64.fin false 360 0) with hy
+  obtain ⟨s1, m1, e1, h1⟩ := F64.exists_fin_of_isFinite y' f1
+  obtain ⟨s2, m2, e2, h2⟩ := F64.exists_fin_of_isFinite y f2
+  have hn : angNormalize (F64.neg (F64.fin sx mx ex)) = if F64.eq (F64.abs y') hd = true then copysign hd (F64.fin (!sx) mx ex) else y' := rfl
+  have hp : angNormalize (F64.fin sx mx ex) = if F64.eq (F64.abs y) hd = true then copysign hd (F64.fin sx mx ex) else y := rfl
+  have habs : (F64.abs y').val = (F64.abs y).val := by
+    rw [h1, h2, F64.val_abs_fin, F64.val_abs_fin, ← h1, ← h2, hrv, abs_neg]
+  have hbr : F64.eq (F64.abs y') hd = F64.eq (F64.abs y) hd := by
+    rw [Bool.eq_iff_iff, F64.eq_fin_iff _ _ (by rw [h1]; rfl) rfl, F64.eq_fin_iff _ _ (by rw [h2]; rfl) rfl, habs]
+  rw [hn, hp, hbr]
+  by_cases hb : F64.eq (F64.abs y) hd = true
+  · simp only [hb, if_true]
+    have c1 : copysign hd (F64.fin (!sx) mx ex) = F64.fin (!sx) 180 0 := rfl
+    have c2 : copysign hd (F64.fin sx mx ex) = F64.fin sx 180 0 := rfl
+    rw [c1, c2]
+    refine ⟨?_, rfl⟩
+    rw [F64.val_fin, F64.val_fin]; cases sx <;> simp
+  · have hb' : F64.eq (F64.abs y) hd = false := by simpa using hb
+    simp only [hb', Bool.false_eq_true, if_false]
+    refine ⟨hrv, ?_⟩
+    by_cases h0 : y.val = 0
+    · have h0' : y'.val = 0 := by rw [hrv, h0]; simp
+      rw [z1 h0', z2 h0]
+    · have h0' : y'.val ≠ 0 := by rw [hrv]; simpa using h0
+      rw [h1, h2]
+      show s1 = !s2
+      have a1 := signbit_fin_iff s1 m1 e1 (by rw [← h1]; exact h0')
+      have a2 := signbit_fin_iff s2 m2 e2 (by rw [← h2]; exact h0)
+      rw [← h1, hrv] at a1
+      rw [← h2] at a2
+      rcases lt_or_gt_of_ne h0 with hlt | hgt
+      · have hs2 : s2 = true := a2.mpr hlt
+        have hn1 : ¬ (s1 = true) := fun hs => by have := a1.mp hs; linarith
+        have hs1 : s1 = false := by cases s1 with | false => rfl | true => exact absurd rfl hn1
+        rw [hs1, hs2]; rfl
+      · have hn2 : ¬ (s2 = true) := fun hs => by have := a2.mp hs; linarith
+        have hs1 : s1 = true := a1.mpr (by linarith)
+        have hs2 : s2 = false := by cases s2 with | false => rfl | true => exact absurd rfl hn2
+        rw [hs1, hs2]; rfl
+
+end Trig
 
 /-! ## `atan2d`: the octant scheme is correct over ℝ -/
 
